@@ -151,6 +151,13 @@ type c19S23 struct {
 	A []c19Iface `@@*`
 }
 
+// a field with an explicitly empty parser key next to other tag keys is not part of the grammar
+type c19S31 struct {
+	A    string `parser:"@Ident" json:"a"`
+	Skip string `parser:"" json:"skip"`
+	B    string `json:"b" parser:"@Int?"`
+}
+
 // self-referential slice and pointer types as field types
 type c19SelfSlice []c19SelfSlice
 type c19SelfPtr *c19SelfPtr
@@ -254,6 +261,7 @@ var c19StaticCases = []struct {
 	{"@@ into a pointer type that points to itself (type P *P)", c19B[c19S28](), false},
 	{"@Ident? into a pointer type that points to itself", c19B[c19S29](), false},
 	{"@@* into a named slice of an anonymous struct that contains the named slice", c19B[c19S30](), false},
+	{"fields with an empty parser key and other tag keys", c19B[c19S31](), true},
 	{"union with a nil member", c19B[c19S23](participle.Union[c19Iface](c19M1{}, nil)), false},
 	{"Elide of an unknown token type", c19B[c19S11](participle.Elide("Nope")), false},
 	{"Map on an unknown token type", c19B[c19S11](participle.Upper("Nope")), false},
